@@ -113,22 +113,25 @@ func VerifC06ShortStringLen() {
 
 // VerifC06ShortSlices: ReadSliceInt8/Uint8/ReadBytes asked for more than remains.
 func VerifC06ShortSlices() {
+	pre := vapi.Len("pre", 2) // bytes already consumed before the bulk read
 	have := vapi.Len("have", 3)
-	data := vapi.Bytes("d", have)
+	data := append(vapi.Bytes("p", pre), vapi.Bytes("d", have)...)
 	n := vapi.Int32("n")
-	vapi.Assume(n > int32(have) && n <= 8)
+	vapi.Assume(vapi.And(n > int32(have), n <= 8))
+	r := NewReader(data)
+	r.Skip(pre)
 	switch vapi.Choice("reader", 3) {
 	case 0:
 		var o []int8
-		err := NewReader(data).ReadSliceInt8(&o, n, true)
+		err := r.ReadSliceInt8(&o, n, true)
 		vapi.Check(err != nil, "ReadSliceInt8 past end must be rejected")
 	case 1:
 		var o []uint8
-		err := NewReader(data).ReadSliceUint8(&o, n, true)
+		err := r.ReadSliceUint8(&o, n, true)
 		vapi.Check(err != nil, "ReadSliceUint8 past end must be rejected")
 	case 2:
 		var o []byte
-		err := NewReader(data).ReadBytes(&o, n, true)
+		err := r.ReadBytes(&o, n, true)
 		vapi.Check(err != nil, "ReadBytes past end must be rejected")
 	}
 	vapi.Reach("c06-short-slices")
